@@ -10,7 +10,7 @@ from vfw.core import Violation, must_return
 from vfw.model import stencil as M
 
 PROPERTY = "C19"
-SIZES = {"quick": 2400, "thorough": 100000}
+SIZES = {"quick": 4800, "thorough": 100000}
 RULE = (
     "Hypothesis draws a grid dataset (1-3 axes, extra dims) whose dimension coordinates exist per dim or not "
     "at all, carry attrs, plus 0-4 non-dimension coordinates (0-D/1-D/N-D) on drawn dims; an input array that "
